@@ -3,8 +3,7 @@
    with_parens_liberal, call_syntax, is_temperature_sugar (as of the fixed tree),
    as a printer to tokens.  `ppm Plain` = Expression::pretty_print, `ppm Parens` =
    with_parens, `ppm Liberal` = with_parens_liberal.  Numbers carry their printed
-   digits (the number formatter is not modelled).  Struct and list literals and
-   interpolated strings are not in this model.  No proofs here. *)
+   digits (the number formatter is not modelled).  Interpolated strings are not in this model.  No proofs here. *)
 From Coq Require Import List NArith ZArith Bool.
 From NV Require Import Syntax.Token Syntax.Ast Syntax.StrEsc Syntax.Parser Syntax.Grammar.
 Import ListNotations.
@@ -24,7 +23,9 @@ Inductive texpr :=
 | XString (s : str)
 | XIf (c t e : texpr)
 | XField (e : texpr) (name : str)
-| XHole.
+| XHole
+| XList (es : list texpr)
+| XStruct (name : str) (fields : list (str * texpr)).
 
 Inductive pmode := Plain | Parens | Liberal.
 
@@ -151,6 +152,8 @@ Fixpoint echo_tree (m : pmode) (e : texpr) {struct e} : sx :=
   | XIf c t f => wrapm m (SIf (echo_tree Parens c) (echo_tree Parens t) (echo_tree Parens f))
   | XField a n => SField (echo_tree Parens a) n
   | XHole => SHole
+  | XList es => SList (map (echo_tree Plain) es)
+  | XStruct n fields => SStruct n (map (fun fe => (fst fe, echo_tree Plain (snd fe))) fields)
   end.
 
 (* Expression::pretty_print, as tokens *)
@@ -181,6 +184,8 @@ Fixpoint printable_t (e : texpr) : bool :=
   | XCall _ args => forallb printable_t args
   | XCallable callee args => printable_t callee && forallb printable_t args
   | XIf c t f => printable_t c && printable_t t && printable_t f
+  | XList es => forallb printable_t es
+  | XStruct _ fields => forallb (fun fe => printable_t (snd fe)) fields
   end.
 
 (* the untyped tree an expression was elaborated from, construct by construct *)
@@ -209,6 +214,8 @@ Fixpoint erase (e : texpr) : expr :=
   | XIf c t f => EIf (erase c) (erase t) (erase f)
   | XField a n => EField (erase a) n
   | XHole => EHole
+  | XList es => EList (map erase es)
+  | XStruct n fields => EStruct n (map (fun fe => (fst fe, erase (snd fe))) fields)
   end.
 
 (* expressions without temperature sugar and without digit separators: their echo is read back as
@@ -227,4 +234,6 @@ Fixpoint exact_t (e : texpr) : bool :=
       exact_t callee && forallb exact_t args
       && match callee with XIdent name => none_sugar (conversion_sugar name) | _ => true end
   | XIf c t f => exact_t c && exact_t t && exact_t f
+  | XList es => forallb exact_t es
+  | XStruct _ fields => forallb (fun fe => exact_t (snd fe)) fields
   end.
